@@ -131,6 +131,7 @@ class StateGraphMonitor(Monitor):
         self.transitions = set()
         run.world.on_hook('send_state_event', self.on_state)
         self.newest = {}      # (receiver nick, inc, source identifier) -> (stamp, state) newest payload received
+        self.received_cycle = {}   # same key -> states received since the last ELECTION (or earlier state) received
         run.world.on_hook('fsm_state_event', self.on_state_received)
 
     def on_state_received(self, inst, status, event):
@@ -138,8 +139,13 @@ class StateGraphMonitor(Monitor):
         by emission stamp is what the instance knows of that peer. """
         key = (inst.nick, inst.inc, status.identifier)
         stamp = event.get('now_monotonic', 0.0)
+        state = event.get('fsm_statename')
         if stamp >= self.newest.get(key, (-1.0, None))[0]:
-            self.newest[key] = (stamp, event.get('fsm_statename'))
+            self.newest[key] = (stamp, state)
+            # the cycle of that peer as this instance has received it: reopened by every ELECTION (or earlier state)
+            if state in ('OFF', 'SYNCHRONIZATION', 'ELECTION') or key not in self.received_cycle:
+                self.received_cycle[key] = set()
+            self.received_cycle[key].add(state)
         else:
             self.count('older_state_payloads_received_after_newer_ones')
 
@@ -190,10 +196,17 @@ class StateGraphMonitor(Monitor):
                 if state in ('DISTRIBUTION', 'OPERATION', 'CONCILIATION') and known:
                     # what the instance follows is the newest state it has received from its Master
                     self.count('slave_entries_checked_against_the_newest_state_received')
-                    if known[1] in ('OFF', 'SYNCHRONIZATION', 'ELECTION'):
-                        self.violate(f'C02/slave-ahead-of-the-newest-state-received-from-its-master:{state}',
-                                     f'{inst.nick} entered {state} at vt={vt(w)} although the newest state and modes it '
-                                     f'has received from its Master {mnick} (stamp {round(known[0], 3)}) say {known[1]}')
+                    # the Master has been through DISTRIBUTION if it is seen in OPERATION / CONCILIATION, through
+                    # OPERATION if it is seen in CONCILIATION; RESTARTING / SHUTTING_DOWN say nothing (ELECTION ->
+                    # SHUTTING_DOWN is an edge)
+                    implied = {'DISTRIBUTION': {'DISTRIBUTION', 'OPERATION', 'CONCILIATION'},
+                               'OPERATION': {'OPERATION', 'CONCILIATION'}, 'CONCILIATION': {'CONCILIATION'}}[state]
+                    cycle = self.received_cycle.get((inst.nick, inst.inc, master), set())
+                    if not cycle & implied:
+                        self.violate(f'C02/slave-ahead-of-what-it-has-received-from-its-master:{state}',
+                                     f'{inst.nick} entered {state} at vt={vt(w)} although what it has received from its '
+                                     f'Master {mnick} since the last ELECTION (or earlier state) of that Master is '
+                                     f'{sorted(cycle)} (newest: {known[1]}, stamp {round(known[0], 3)})')
                 if state not in self.entered.get(mkey, ()):
                     # the Master may have crashed and restarted meanwhile: look at its previous incarnation too
                     prev_key = (mnick, mkey[1] - 1)
@@ -201,7 +214,10 @@ class StateGraphMonitor(Monitor):
                         self.violate(f'C02/slave-before-master:{state}{self.local_shutdown(state)}',
                                      f'{inst.nick} entered {state} at vt={vt(w)} although its Master {mnick} has '
                                      f'never published it (Master published {sorted(self.entered.get(mkey, ()))})')
-                elif state in ('DISTRIBUTION', 'OPERATION', 'CONCILIATION') and minst and minst.alive:
+                elif state in ('DISTRIBUTION', 'OPERATION', 'CONCILIATION') and minst and minst.alive and not known:
+                    # (only when nothing is known of what the instance has received from its Master: otherwise the
+                    # reception-based clause above decides - a publication queued behind a slow handshake in the proxy
+                    # of the Master is delivered late, in order, and the instance rightly follows what it has)
                     # ... and in the current cycle of the Master (since its last ELECTION), or in the previous one if
                     # the new cycle has just begun (its ELECTION publication may still be in flight)
                     cycles = self.cycles.get(mkey, [])
